@@ -170,6 +170,10 @@ def make_deck(ch, dims, skew, by_rpp, arr_mode):
     d.add_cell(HCell(31, -41, mat=1, rho='-2.7', u=2)); d.add_cell(HCell(32, 41, mat=2, rho='-7.8', u=2))
     d.add_cell(HCell(33, -42, mat=3, rho='-1.0', u=3)); d.add_cell(HCell(34, 42, mat=1, rho='-2.7', u=3))
     d.mats = dict(MATS)
+    kwo = ch.choose('keyword-order', [None, ['imp', 'fill', 'lat', 'u', 'trcl'], ['trcl', 'lat', 'imp', 'u', 'fill'],
+                                      ['fill', 'u', 'trcl', 'imp', 'lat']])
+    for c in d.hcells:
+        c.kw_order = kwo
     d.finish()
     if arr_mode == 'single':
         # FILL=n on the card, ranges on the command line
